@@ -306,9 +306,5 @@ def run(ctx):
             ctx.violations(vs)
     t()
     if thorough:
-        try:
-            from vlib import fuzzrun
-        except ImportError:
-            fuzzrun = None
-        if fuzzrun:
-            fuzzrun.run_atheris(ctx, 'fuzz/c06_parse.py', seconds=60)
+        from vlib import fuzzrun
+        fuzzrun.run_atheris(ctx, 'fuzz/c06_parse.py', seconds=90, seeds=[b'\x00\x051:2:3', b'\x02' + b'\x00' * 8, b''])
